@@ -1,0 +1,129 @@
+//go:build verif
+
+// Contracts for package target, checked by /verif/gvc (comment-only file,
+// compiled only under the build tag "verif").
+package target
+
+// The current configuration is only touched under Config.mu; it is always a valid
+// one (NewConfigWithBase and Load validate before storing), and the handler calls
+// made so far - all of them made under the lock - replay to it. The ghost replay
+// state is owned by this monitor (a single Config object is assumed).
+//@ monitor Config.mu protects configuration invariant ConfInv
+//@ pred ConfInv(c *Config) := (c.configuration != nil ==> ValidConf(c.configuration)) && Replayed(c.configuration)
+
+// ---- validity ---------------------------------------------------------------
+// A configuration is valid when every target has a name, settings, at least one
+// address and names a request that exists.
+//@ pred TargetOK(config *pb.Configuration, name string) := name != "" && config.Target[name] != nil && len(config.Target[name].Addresses) > 0
+//@   && config.Target[name].Request != "" && has(config.Request, config.Target[name].Request)
+//@ pred ValidConf(config *pb.Configuration) := forall name string :: has(config.Target, name) ==> TargetOK(config, name)
+
+//@ func Validate
+//@   props C17 C12
+//@   requires config != nil
+//@   invariant 0: forall name string :: has($visited, name) ==> TargetOK(config, name)
+//@   ensures [accepts-exactly-the-valid C17] res0 == nil <==> ValidConf(config)
+
+// ---- revision gate -----------------------------------------------------------
+// Machine arithmetic: revisions are int64, the comparison must be the int64 order.
+//@ func (*Config).checkRevision
+//@   props C17 C12
+//@   arith wrap
+//@   requires c != nil && cf != nil && wheld(c.mu)
+//@   ensures [strictly-greater-or-first C17] res0 == nil <==> (c.configuration == nil || cf.Revision > c.configuration.Revision)
+
+// ---- the handler calls, replayed ------------------------------------------------
+// present / appliedT / appliedR: the set of targets, and per target the settings and
+// the subscription request, that replaying every Add/Update/Delete handler call made
+// so far onto an empty set yields. touched: names some handler was called for.
+//@ ghost present set[string]
+//@ ghost appliedT gmap[string]ref
+//@ ghost appliedR gmap[string]ref
+//@ ghost touched set[string]
+
+//@ func field Handler.Add (u)
+//@   effect present := union1(present, u.Name)
+//@   effect appliedT := upd(appliedT, u.Name, u.Target)
+//@   effect appliedR := upd(appliedR, u.Name, u.Request)
+//@   effect touched := union1(touched, u.Name)
+//@   note the handler is assumed not to modify the configuration objects
+//@ func field Handler.Update (u)
+//@   effect present := union1(present, u.Name)
+//@   effect appliedT := upd(appliedT, u.Name, u.Target)
+//@   effect appliedR := upd(appliedR, u.Name, u.Request)
+//@   effect touched := union1(touched, u.Name)
+//@   note the handler is assumed not to modify the configuration objects
+//@ func field Handler.Delete (name)
+//@   effect present := minus1(present, name)
+//@   effect touched := union1(touched, name)
+//@   note the handler is assumed not to modify the configuration objects
+
+// The replayed set equals configuration cf (settings and requests up to proto.Equal); nil = nothing loaded yet.
+//@ pred ReqOf(cf *pb.Configuration, name string) := cf.Request[cf.Target[name].Request]
+//@ pred ReplayedAt(cf *pb.Configuration, k string) := (has(present, k) <==> (cf != nil && has(cf.Target, k)))
+//@   && (cf != nil && has(cf.Target, k) ==> protoEq(boxas(appliedT[k], "*pb.Target"), box(cf.Target[k])) && protoEq(boxas(appliedR[k], "*gpb.SubscribeRequest"), box(ReqOf(cf, k))))
+//@ pred Replayed(cf *pb.Configuration) := forall k string :: ReplayedAt(cf, k)
+//@ pred Handlers(c *Config) := c.h.Add != nil && c.h.Update != nil && c.h.Delete != nil
+// Target k is the same in both configurations: same settings, same request contents.
+//@ pred Unchanged(old *pb.Configuration, new *pb.Configuration, k string) := old != nil && has(old.Target, k) && has(new.Target, k)
+//@   && protoEq(box(old.Target[k]), box(new.Target[k])) && protoEq(box(ReqOf(old, k)), box(ReqOf(new, k)))
+
+// proto.Equal on two target settings compares (among everything else) the request name.
+// (assumed about the protobuf library; the axiom is attached to a spec function the contract below mentions)
+//@ spec sameRequestName(*pb.Target, *pb.Target) bool
+//@ axiom forall a *pb.Target, b *pb.Target :: sameRequestName(a, b) <==> (a == nil || b == nil || a.Request == b.Request)
+//@ axiom forall a *pb.Target, b *pb.Target :: a != nil && b != nil && protoEq(box(a), box(b)) ==> a.Request == b.Request
+
+//@ pred OT(c *Config, k string) := c.configuration != nil && has(c.configuration.Target, k)
+//@ pred GhostSameAt(k string) := (has(present, k) <==> old(has(present, k))) && appliedT[k] == old(appliedT[k]) && appliedR[k] == old(appliedR[k])
+//@ pred ReqChangedOK(c *Config, config *pb.Configuration, requestChanged map[string]bool) := forall k string :: requestChanged[k] <==>
+//@   (c.configuration != nil && has(c.configuration.Request, k) && has(config.Request, k) && !protoEq(box(c.configuration.Request[k]), box(config.Request[k])))
+//@ pred NewTouched(c *Config, config *pb.Configuration) := forall k string :: has(touched, k) && !old(has(touched, k)) ==> !Unchanged(c.configuration, config, k)
+
+//@ func (*Config).handleDiffs
+//@   props C17 C12
+//@   requires c != nil && config != nil && wheld(c.mu) && Handlers(c) && ValidConf(config) && (c.configuration != nil ==> ValidConf(c.configuration))
+//@   requires Replayed(c.configuration) && sameRequestName(nil, nil)
+//@   modifies ghost present, ghost appliedT, ghost appliedR, ghost touched
+//@   invariant 0: [request-changed-iff-contents-differ C17] (forall k string :: has($visited, k) ==> has(config.Request, k)) && (forall k string :: requestChanged[k] <==> (has($visited, k) && c.configuration != nil && has(c.configuration.Request, k)
+//@     && !protoEq(box(c.configuration.Request[k]), box(config.Request[k]))))
+//@   invariant 1: ReqChangedOK(c, config, requestChanged) && (forall k string :: has(newTargets, k) <==> has($visited, k)) && (forall k string :: has($visited, k) ==> has(config.Target, k) && newTargets[k] == config.Target[k])
+//@   invariant 2: ReqChangedOK(c, config, requestChanged) && NewTouched(c, config)
+//@     && (forall k string :: has($visited, k) ==> OT(c, k) && ReplayedAt(config, k) && !has(newTargets, k))
+//@     && (forall k string :: !has($visited, k) ==> (has(newTargets, k) <==> has(config.Target, k)) && (has(newTargets, k) ==> newTargets[k] == config.Target[k]) && GhostSameAt(k))
+//@   invariant 3: NewTouched(c, config)
+//@     && (forall k string :: !has(newTargets, k) || has($visited, k) ==> ReplayedAt(config, k))
+//@     && (forall k string :: has(newTargets, k) && !has($visited, k) ==> has(config.Target, k) && newTargets[k] == config.Target[k] && GhostSameAt(k) && !OT(c, k))
+//@   ensures [replay-yields-the-new-configuration C17] Replayed(config)
+//@   ensures [unchanged-targets-not-announced C17] forall k string :: has(touched, k) && !old(has(touched, k)) ==> !Unchanged(c.configuration, config, k)
+
+// Load applies a configuration iff it is valid and its revision is strictly greater
+// than the current one; otherwise nothing changes and no handler runs.
+//@ func (*Config).Load
+//@   props C17 C12
+//@   locks c
+//@   requires c != nil && Handlers(c)
+//@   modifies ghost present, ghost appliedT, ghost appliedR, ghost touched
+//@   ensures [applied-iff-valid-and-newer C17] res0 == nil <==> (config != nil && ValidConf(config) && (old(c.configuration) == nil || config.Revision > old(c.configuration).Revision))
+//@   ensures [accepted-is-stored C17] res0 == nil ==> c.configuration == config
+//@   ensures [rejected-changes-nothing C17] res0 != nil ==> c.configuration == old(c.configuration) && present == old(present) && appliedT == old(appliedT) && appliedR == old(appliedR) && touched == old(touched)
+//@   ensures [replay-tracks-current C17] res0 == nil ==> Replayed(c.configuration)
+
+// A base configuration is accepted only if it is valid (so the monitor invariant
+// holds from the start). The replay set starts empty: a non-nil base is NOT
+// announced through the handlers (callers that pass a base must add its targets
+// themselves) - the replay claim of Load therefore speaks about Configs created
+// without a base, or after the caller has replayed the base itself.
+//@ func NewConfigWithBase
+//@   props C17 C12
+//@   ensures [invalid-base-refused C17] config != nil && !ValidConf(config) ==> res0 == nil && res1 != nil
+//@   ensures [valid-base-kept C17] config == nil || ValidConf(config) ==> res1 == nil && res0 != nil && fresh(res0) && res0.configuration == config
+
+//@ func NewConfig
+//@   props C17 C12
+//@   ensures res0 != nil && fresh(res0) && res0.configuration == nil
+
+//@ func (*Config).Current
+//@   props C17 C12
+//@   locks c
+//@   requires c != nil
